@@ -73,7 +73,7 @@ func checkC12(c *Ctx) {
 	c.Rule("C12.4", "never early: Send is preceded by Sleep(1us*absTime - last) in the same call and the step returns 1us*absTime", 1)
 	c.Rule("C12.5", "file order in: simulated on two tracks of two events, the track iterator hands the callback every event once, tracks then events in file order", 1)
 
-	c.Rule("C12.7", "selection: with tracks {0}, {1}, {0,1} selected the iterator hands over exactly the events of those tracks, once each, in file order; Play(out) plays every track on the given port (map key -1)", 4)
+	c.Rule("C12.7", "selection: a reader made by the constructor ReadTracksFrom (file parser replaced by a prepared two-track file) with the selections {0}, {1}, {0,1}, {5}, {-3,2}, {1,7} hands over exactly the events of the selected tracks the file has, once each, in file order — nothing at all when no selected track exists; Play(out) plays every track on the given port (map key -1)", 4)
 	c.Rule("C12.6", "the schedule is the tempo map: the times the play list is built from follow the segment rule of the tick-to-time conversion, also with repeated tempo ticks (= C11.3)", 4)
 	c.include(checkC11, map[string]string{"C11.3": "C12.6"})
 
@@ -99,7 +99,7 @@ func checkC12(c *Ctx) {
 		smfT2 := p.namedType("smf", "SMF")
 		timeAt := p.MethodOf(types.NewPointer(smfT2), "TimeAt")
 		if timeAt != nil {
-			for _, sel := range [][]int64{{0}, {1}, {0, 1}} {
+			for _, sel := range [][]int64{{0}, {1}, {0, 1}, {5}, {-3, 2}, {1, 7}} { // {5}, {-3, 2}: nothing selected that the file has -> nothing delivered
 				iteratorSimulationSel(c, "C12.7", do, timeAt, sel)
 			}
 		} else {
